@@ -9,7 +9,7 @@ Import ListNotations.
 Open Scope string_scope.
 Open Scope list_scope.
 
-(* User tags, every line of the syntax (any number of literal pieces and tags <<<n>>> / <<<n=d>>>, pieces without '<' '>',
+(* User tags, every line of the syntax (any number of literal pieces and tags <<<n>>> / <<<n=d>>>, pieces that contain no "<<<" and do not begin with '<',
    names without '='), every assignment (any values): each tag on its own becomes its assigned value, else its inline
    default, else stays verbatim; the text around it is untouched. *)
 Theorem C17_usertag : forall (a : assign) (l : uline),
